@@ -111,6 +111,9 @@ type Sink struct {
 	samples   []any
 	sampled   map[string]int
 	Direct    []map[string]any // failures decided on the Go side (panics, races, ...)
+	Defs      map[string]string // named Coq definitions a case may depend on (emitted only in the shards that use them)
+	deps      []string
+	CurDep    string
 	Filter    map[string]any   // replay: keep only the cases that agree with this case on ReplayKeys
 	ReplayKeys []string
 	Extra     map[string]any
@@ -135,6 +138,7 @@ func (s *Sink) Add(term string, js map[string]any, class string, nontrivial bool
 	}
 	idx := len(s.terms)
 	s.terms = append(s.terms, term)
+	s.deps = append(s.deps, s.CurDep)
 	js["class"] = class
 	b, _ := json.Marshal(js)
 	s.jsons = append(s.jsons, string(b))
@@ -201,6 +205,16 @@ func (s *Sink) Close() error {
 		var sb strings.Builder
 		sb.WriteString(s.Header)
 		sb.WriteString("\n")
+		if s.Defs != nil {
+			done := map[string]bool{}
+			for i := lo; i < hi; i++ {
+				if d := s.deps[i]; d != "" && !done[d] {
+					done[d] = true
+					sb.WriteString(s.Defs[d])
+					sb.WriteString("\n")
+				}
+			}
+		}
 		// chunks of 250 keep the list notation shallow (parsing is superlinear in the literal's length)
 		names := []string{}
 		for clo := lo; clo < hi; clo += 250 {
